@@ -31,6 +31,7 @@ Proof. apply Sub_transport. intros b ms. apply nth_error_app_old. Qed.
 
 Section Step.
 Variable fresh : nat -> id.
+Variable GP : id -> Prop.
 Hypothesis fresh_inj : forall a b, fresh a = fresh b -> a = b.
 
 Lemma InGroup_app gs x g k : InGroup gs g k -> InGroup (gs ++ [x]) g k.
@@ -44,10 +45,10 @@ Definition TreeOK (s : cstate) : Prop :=
 Definition LeafOK (s : cstate) : Prop :=
   forall k, k < length (cs_nodes s) -> exists g, InGroup (cs_groups s) g k.
 
-Record Inv (s : cstate) : Prop := { inv_st : StOK fresh s; inv_tree : TreeOK s; inv_leaf : LeafOK s }.
+Record Inv (s : cstate) : Prop := { inv_st : StOK fresh GP s; inv_tree : TreeOK s; inv_leaf : LeafOK s }.
 
 (* StOK only reads the uuid counter and the nodes *)
-Lemma StOK_same s s' : cs_next s' = cs_next s -> cs_nodes s' = cs_nodes s -> StOK fresh s -> StOK fresh s'.
+Lemma StOK_same s s' : cs_next s' = cs_next s -> cs_nodes s' = cs_nodes s -> StOK fresh GP s -> StOK fresh GP s'.
 Proof.
   intros E1 E2 [H1 H2]. constructor.
   - unfold uuids. rewrite E1, E2. exact H1.
@@ -75,7 +76,7 @@ Proof.
   - apply (ext_new _ _ He); assumption.
 Qed.
 
-Lemma Inv_ext s s' : Inv s -> StOK fresh s' -> ext s s' -> Inv s'.
+Lemma Inv_ext s s' : Inv s -> StOK fresh GP s' -> ext s s' -> Inv s'.
 Proof. intros [_ H2 H3] Hst He. constructor; [exact Hst|eapply TreeOK_ext; eauto|eapply LeafOK_ext; eauto]. Qed.
 
 (* ---------------------------------------------------------------- appending a group *)
@@ -150,16 +151,16 @@ Proof. intros [H1 H2 H3]. constructor; [eapply StOK_same; [| |exact H1]; reflexi
 
 (* ---------------------------------------------------------------- edges *)
 Lemma cadd_row_edge_ok s e d s' :
-  StOK fresh s -> dest_ok (uuids s) d -> cadd_row_edge fresh s e d = Ok s' -> StOK fresh s' /\ ext s s'.
+  StOK fresh GP s -> dest_ok (uuids s) d -> cadd_row_edge fresh s e d = Ok s' -> StOK fresh GP s' /\ ext s s'.
 Proof.
   intros Hst Hd. unfold cadd_row_edge. destruct (csource s e) as [[g|]|x]; try discriminate.
-  - apply (cadd_exit_ok fresh fresh_inj); assumption.
+  - apply (cadd_exit_ok fresh GP fresh_inj); assumption.
   - intros H. injection H as <-. split; [exact Hst|apply ext_refl].
 Qed.
 
 Lemma fold_edges_ok (dest : cstate -> dst) es : forall s s',
   (forall a, ext s a -> dest_ok (uuids a) (dest a)) ->
-  StOK fresh s -> foldM (fun a e => cadd_row_edge fresh a e (dest a)) es s = Ok s' -> StOK fresh s' /\ ext s s'.
+  StOK fresh GP s -> foldM (fun a e => cadd_row_edge fresh a e (dest a)) es s = Ok s' -> StOK fresh GP s' /\ ext s s'.
 Proof.
   intros s s' Hd Hst. apply foldM_ext; [|exact Hst].
   intros a x b Ha Hea _. apply cadd_row_edge_ok; [exact Ha|apply Hd, Hea].
@@ -172,9 +173,10 @@ Proof.
 Qed.
 
 (* ---------------------------------------------------------------- one row *)
-Lemma cstep_ok s cr s' : Inv s -> cstep fresh s cr = Ok s' -> Inv s'.
+Lemma cstep_ok s cr s' :
+  (cr_uuid cr <> [] -> GP (cr_uuid cr)) -> Inv s -> cstep fresh s cr = Ok s' -> Inv s'.
 Proof.
-  intros Hi. unfold cstep. destruct (r_type (cr_row cr)) as [cls payloads dec0|tgts| | | | |] eqn:Et.
+  intros Hgiven Hi. unfold cstep. destruct (r_type (cr_row cr)) as [cls payloads dec0|tgts| | | | |] eqn:Et.
   - (* node rows *)
     set (row_action := if is_basic_kind (cr_kind cr) then match payloads with p :: _ => Some p | [] => None end else None).
     destruct (match row_action with Some p => ([(fresh (cs_next s), p)], S (cs_next s)) | None => ([], cs_next s) end) as [acts n1] eqn:Ea.
@@ -197,11 +199,12 @@ Proof.
       destruct (nth_error (cs_nodes s) k) as [nd|] eqn:En; [|discriminate].
       assert (Hs1 : Inv (set_node s k (mkCNode (cn_uuid nd) (cn_given nd) (cn_actions nd ++ acts) (cn_body nd)) n1)).
       { destruct Hi as [H1 H2 H3].
-        destruct (set_node_ok fresh fresh_inj s k nd (mkCNode (cn_uuid nd) (cn_given nd) (cn_actions nd ++ acts) (cn_body nd)) n1 H1 En eq_refl Hn1) as [Hst He].
-        - destruct (StOK_nth fresh _ _ _ H1 En) as [N1 N2 N3]. constructor; cbn.
+        destruct (set_node_ok fresh GP fresh_inj s k nd (mkCNode (cn_uuid nd) (cn_given nd) (cn_actions nd ++ acts) (cn_body nd)) n1 H1 En eq_refl Hn1) as [Hst He].
+        - destruct (StOK_nth fresh GP _ _ _ H1 En) as [N1 N2 N3 N4]. constructor; cbn.
           + intros Hg. eapply below_mono; [exact Hn1|apply N1, Hg].
           + rewrite map_app. apply Forall_app. split; [eapply Forall_below_mono; eauto|exact Hacts].
           + eapply BodyOK_mono; [exact Hn1|apply incl_refl|exact N3].
+          + exact N4.
         - unfold node_ids, uuid_ids. cbn. rewrite map_app.
           apply (IdStep_gain fresh _ _ (map fst acts)); [exact Facts|].
           apply perm_insert.
@@ -214,12 +217,12 @@ Proof.
       revert Ea. intros Ea. injection Ea as <- <-.
       destruct (new_row_node fresh (cs_next s) (cr_kind cr) (cr_uuid cr) [] _) as [[nd n2]|x] eqn:En; [|discriminate].
       pose proof (new_row_node_ids fresh fresh_inj (cs_next s) _ _ _ _ _ _ _ Hn1 Facts En) as (_ & Fn).
-      apply (new_row_node_ok fresh fresh_inj _ (uuids s ++ [cn_uuid nd])) in En as (N1 & N2 & _); [|constructor].
+      apply (new_row_node_ok fresh GP fresh_inj _ (uuids s ++ [cn_uuid nd])) in En as (N1 & N2 & _); [|exact Hgiven|constructor].
       destruct (foldM _ _ (push_node s nd n2)) as [s2|x] eqn:Ef; [|discriminate].
       intros H. injection H as <-.
       apply (fold_edges_ok (fun _ => Some (cn_uuid nd))) in Ef as [Hst2 He2].
       2:{ intros a Ha. eapply ext_dest_ok; [exact Ha|]. right. unfold uuids. cbn. rewrite map_app. apply in_or_app. right. left. reflexivity. }
-      2:{ apply (push_StOK fresh fresh_inj); [apply Hi|exact N1|exact N2|exact Fn]. }
+      2:{ apply (push_StOK fresh GP fresh_inj); [apply Hi|exact N1|exact N2|exact Fn]. }
       apply Inv_set_names. destruct Hi as [H1 H2 H3]. constructor; [eapply StOK_same; [| |exact Hst2]; reflexivity| |].
       * apply TreeOK_add. eapply TreeOK_ext; [exact He2|]. exact H2.
       * apply LeafOK_add. intros j Hj.
@@ -232,14 +235,14 @@ Proof.
       destruct (new_row_node fresh n1 (cr_kind cr) (cr_uuid cr) acts _) as [[nd n2]|x] eqn:En.
       2:{ destruct row_action; discriminate. }
       pose proof (new_row_node_ids fresh fresh_inj (cs_next s) _ _ _ _ _ _ _ Hn1 Facts En) as (_ & Fn).
-      apply (new_row_node_ok fresh fresh_inj _ (uuids s ++ [cn_uuid nd])) in En as (N1 & N2 & _); [|exact Hacts].
+      apply (new_row_node_ok fresh GP fresh_inj _ (uuids s ++ [cn_uuid nd])) in En as (N1 & N2 & _); [|exact Hgiven|exact Hacts].
       destruct (foldM _ _ (push_node s nd n2)) as [s2|x] eqn:Ef.
       2:{ destruct row_action; discriminate. }
       intros H. assert (H' : Ok (set_names (add_cgroup s2 (CGRow (length (cs_nodes s)) [] (rowtype_of (cr_kind cr))) (r_id (cr_row cr))) node_name (length (cs_nodes s))) = Ok s')
         by (destruct row_action; exact H). clear H. injection H' as <-.
       apply (fold_edges_ok (fun _ => Some (cn_uuid nd))) in Ef as [Hst2 He2].
       2:{ intros a Ha. eapply ext_dest_ok; [exact Ha|]. right. unfold uuids. cbn. rewrite map_app. apply in_or_app. right. left. reflexivity. }
-      2:{ apply (push_StOK fresh fresh_inj); [apply Hi|lia|exact N2|exact Fn]. }
+      2:{ apply (push_StOK fresh GP fresh_inj); [apply Hi|lia|exact N2|exact Fn]. }
       apply Inv_set_names. destruct Hi as [H1 H2 H3]. constructor; [eapply StOK_same; [| |exact Hst2]; reflexivity| |].
       * apply TreeOK_add. eapply TreeOK_ext; [exact He2|]. exact H2.
       * apply LeafOK_add. intros j Hj.
@@ -250,7 +253,7 @@ Proof.
            ++ left. apply (ext_new _ _ He2); [cbn; rewrite app_length; cbn; lia|exact Hj].
   - (* go_to *)
     destruct (negb _); [discriminate|]. intros H.
-    apply (foldM_ext fresh) in H as [Hst' He']; [apply (Inv_ext s); [exact Hi|exact Hst'|exact He']| |apply Hi].
+    apply (foldM_ext fresh GP) in H as [Hst' He']; [apply (Inv_ext s); [exact Hi|exact Hst'|exact He']| |apply Hi].
     intros a x b Ha Hea _. destruct (alookup (cs_rowmap a) (snd x)) as [g|]; [|discriminate].
     destruct (centry (cfuel a) a g) as [k|y]; [|discriminate].
     destruct (nth_error (cs_nodes a) k) as [nd|] eqn:En; [|discriminate].
@@ -272,12 +275,18 @@ Proof.
     intros H. injection H as <-. apply Inv_end_block; assumption.
 Qed.
 
-Theorem crun_Inv rows s : crun fresh rows = Ok s -> Inv s.
+(* every given `_nodeId` of the rows enjoys GP *)
+Definition given_ok (rows : list crow) : Prop :=
+  forall cr, In cr rows -> cr_uuid cr <> [] -> GP (cr_uuid cr).
+
+Theorem crun_Inv rows s : given_ok rows -> crun fresh rows = Ok s -> Inv s.
 Proof.
-  unfold crun. assert (G : forall s0, Inv s0 -> foldM (cstep fresh) rows s0 = Ok s -> Inv s).
+  unfold crun. intros Hg. assert (G : forall s0, Inv s0 -> foldM (cstep fresh) rows s0 = Ok s -> Inv s).
   { induction rows as [|r rest IH]; intros s0 H0; cbn.
     - intros H. injection H as <-. exact H0.
-    - destruct (cstep fresh s0 r) as [s1|x] eqn:E; [|discriminate]. apply IH. eapply cstep_ok; eauto. }
+    - destruct (cstep fresh s0 r) as [s1|x] eqn:E; [|discriminate].
+      apply IH; [intros cr Hcr; apply Hg; right; exact Hcr|].
+      eapply cstep_ok; [apply Hg; left; reflexivity|exact H0|exact E]. }
   apply G, Inv_cs0.
 Qed.
 End Step.
